@@ -1309,6 +1309,25 @@ fn c12(_tier: &str, seed: u64) -> Report {
             }
         }
     }
+    // longer operands: every length around the 16-symbol word, slices at offsets, a subset argument (contains must be true),
+    // a random argument, owned and borrowed receivers
+    for n in [1usize, 2, 15, 16, 17, 31, 32, 33, 40, 48, 63, 64, 65, 130, 1030] {
+        for off in [0usize, 1, 7, 16] {
+            let x = rand_rows::<Iupac>(&mut rng, n);
+            let y = rand_rows::<Iupac>(&mut rng, n);
+            let sub: Vec<usize> = (0..n).map(|i| row_of_set(setof(x[i]) & setof(y[i]))).collect();
+            let px = { let mut p = rand_rows::<Iupac>(&mut rng, off); p.extend(&x); build::<Iupac>(&p) };
+            let py = { let mut p = rand_rows::<Iupac>(&mut rng, (off * 3) % 17); p.extend(&y); build::<Iupac>(&p) };
+            let (sx, sy) = (&px[off..], &py[(off * 3) % 17..]);
+            let ssub = build::<Iupac>(&sub);
+            rep.case(|| format!("long operands n={} off={}", n, off));
+            let wor: Vec<usize> = (0..n).map(|i| row_of_set(setof(x[i]) | setof(y[i]))).collect();
+            rep.expect(rows_of::<Iupac>(&(sx | sy)) == wor && rows_of::<Iupac>(&(sx & sy)) == sub, "C12 | and & on long operands at offsets", || format!("n={} off={}", n, off));
+            let want = (0..n).all(|i| setof(y[i]) & setof(x[i]) == setof(y[i]));
+            rep.expect(sx.contains(&ssub) && sx.to_owned().contains(&ssub) && sx.contains(sy) == want && sx.to_owned().contains(sy) == want && sx.contains(sx) && !sx.contains(&sy[..n - 1]),
+                "C12 contains <=> every position of the argument is a subset", || format!("long: n={} off={} {} contains {} / {}", n, off, sx, ssub, sy));
+        }
+    }
     for la in 0..5usize {
         for lb in 0..5usize {
             let x = build::<Iupac>(&vec![14; la]); // N
